@@ -18,6 +18,10 @@ fn catch<T>(f: impl FnOnce() -> T) -> Result<T, String> {
     std::panic::catch_unwind(std::panic::AssertUnwindSafe(f)).map_err(|e| e.downcast_ref::<String>().cloned().or(e.downcast_ref::<&str>().map(|s| s.to_string())).unwrap_or("panic".into()))
 }
 
+fn k_of(shape: &Shape) -> usize {
+    shape.padded().trailing_zeros() as usize
+}
+
 fn circuit(g: usize) -> Shape {
     let mut p1 = vec![Op::Commit];
     for _ in 0..g {
@@ -128,10 +132,25 @@ pub fn c08_native<G: AffineRepr + 'static>(seed: u64, maxlen: usize) -> Checks {
         let ssz = scs[0].serialized_size(ark_serialize::Compress::Yes);
         let off_l = 11 * psz + 3 * ssz;
         let mut cases: Vec<Vec<u8>> = (0..bytes.len()).map(|c| bytes[..c].to_vec()).collect();
-        for huge in [u64::MAX, 1u64 << 40, 1u64 << 20, (bytes.len() as u64) + 1] {
-            let mut b2 = bytes.clone();
-            b2[off_l..off_l + 8].copy_from_slice(&huge.to_le_bytes());
-            cases.push(b2);
+        let mut prefixes: Vec<u64> = vec![u64::MAX, u64::MAX - 1, 1u64 << 63, 1u64 << 40, 1u64 << 20, (bytes.len() as u64) + 1];
+        for top in 0..=255u64 {
+            prefixes.push((top << 56) | 0x0123_4567_89ab_cd);
+        }
+        // counts whose product with the point size wraps around 2^64 to a small offset
+        for d in 0..6u64 {
+            let q = (u128::pow(2, 64) / psz as u128) as u64;
+            prefixes.push(q.wrapping_add(d));
+            prefixes.push(q.wrapping_sub(d));
+            prefixes.push(((u128::pow(2, 64) * (d as u128 + 1) + 7) / psz as u128) as u64);
+        }
+        for huge in prefixes {
+            for off in [off_l, off_l + 8 + k_of(&shape) * psz] {
+                if off + 8 <= bytes.len() {
+                    let mut b2 = bytes.clone();
+                    b2[off..off + 8].copy_from_slice(&huge.to_le_bytes());
+                    cases.push(b2);
+                }
+            }
         }
         for _ in 0..32 {
             use rand_core::RngCore;
@@ -257,6 +276,31 @@ pub fn c11_native<G: AffineRepr + 'static>(seed: u64, small_order: Option<Vec<G>
                 }
             }
             out.push((format!("{}: a point with a small-order component (outside the prime-order subgroup) is rejected at every point position ({} encodings tried)", shape.name, tried), acc == 0 && tried > 0));
+            // small-order components on two positions that cancel in the sum of all points
+            let mut acc2 = 0;
+            let mut tried2 = 0;
+            let shift = |bytes: &Vec<u8>, off: usize, t: G::Group| -> Option<Vec<u8>> {
+                let p = G::deserialize_compressed_unchecked(&bytes[off..off + psz]).ok()?;
+                let q: G = (p.into_group() + t).into_affine();
+                let mut enc = vec![];
+                q.serialize_compressed(&mut enc).ok()?;
+                let mut b2 = bytes.clone();
+                b2[off..off + psz].copy_from_slice(&enc);
+                Some(b2)
+            };
+            for t in torsion.iter() {
+                for w in point_offsets.windows(2) {
+                    if let Some(b1) = shift(&bytes, w[0], t.into_group()) {
+                        if let Some(b2) = shift(&b1, w[1], -t.into_group()) {
+                            tried2 += 1;
+                            if R1CSProof::<G>::from_bytes(&b2).is_ok() {
+                                acc2 += 1;
+                            }
+                        }
+                    }
+                }
+            }
+            out.push((format!("{}: small-order components on two neighbouring point positions that cancel in the sum are rejected ({} encodings tried)", shape.name, tried2), acc2 == 0 && tried2 > 0));
         }
     }
     out
